@@ -31,35 +31,16 @@ import (
 	"verif/internal/vx"
 )
 
-var fLevels = [][]string{
-	{"n0", "n1", "n2"},     // plain values naming the tree / layer they come from
-	{"g0", "g1", "s.g2"},   // expressions over level 0
-	{"h0", "h1"},           // expressions over levels 0-1
-	{"out0", "out1", "s.o"}, // expressions over levels 0-2
-}
+// The names are totally ordered; the first two hold plain values naming the
+// tree / layer they come from, every other name holds an expression over the
+// names before it.
+var fNames = []string{"n0", "n1", "g0", "s.g1", "h0", "h1", "k0", "s.k1"}
+
+const fPlain = 2
 
 // literals: words, an inner blank, and '$' / '}' at the start, in the middle
 // and at the END of the text (escape sequences at every position of a string)
 var fLits = []string{"va", "vb-", "v c", "w", "", "x$", "y}", "$", "}", "$q", "}q", "p$p", "p}p"}
-
-func fLevelOf(name string) int {
-	for l, ns := range fLevels {
-		for _, n := range ns {
-			if n == name {
-				return l
-			}
-		}
-	}
-	return -1
-}
-
-func fAllNames() []string {
-	var out []string
-	for _, ns := range fLevels {
-		out = append(out, ns...)
-	}
-	return out
-}
 
 // fdef is one definition of a name. origin identifies the definition as an
 // object: copies made by merging a configuration into another keep it.
@@ -77,10 +58,14 @@ type ftree struct {
 
 type forest struct {
 	srcs  []*ftree // source configurations, only ever copied from
-	trees []*ftree // trees[0] is read, trees[1:] are the Env configurations in the order added
+	trees []*ftree // every tree is read in turn, with the other ones as Env configurations (in this order)
 	ress  []map[string]string
 	plan  [][]fstep // per tree
 	nextO int
+
+	depth   int   // nesting depth of the expressions: 1..depth
+	reading int   // the tree being read
+	envs    []int // its Env configurations in the order added
 }
 
 type fstep struct {
@@ -93,73 +78,90 @@ func tagName(tag, name string) string {
 	return tag + strings.ToUpper(strings.ReplaceAll(name, ".", ""))
 }
 
-func (f *forest) newDef(r *rand.Rand, name, tag string) *fdef {
-	l := fLevelOf(name)
+// fLower: the names an expression defined under fNames[i] may refer to; names
+// holding expressions are drawn three times as often as the plain ones.
+func fLower(i int) []string {
+	out := append([]string{}, fNames[:i]...)
+	for j := fPlain; j < i; j++ {
+		out = append(out, fNames[j], fNames[j])
+	}
+	return out
+}
+
+func (f *forest) newDef(r *rand.Rand, i int, tag string, wide bool) *fdef {
 	var ex *model.Ex
-	if l == 0 {
-		ex = model.Lit(tagName(tag, name))
-	} else {
-		var lower []string
-		for _, ns := range fLevels[:l] {
-			lower = append(lower, ns...)
+	if i < fPlain {
+		ex = model.Lit(tagName(tag, fNames[i]))
+	} else if wide {
+		// a text with several expansions: several names are resolved within
+		// one read
+		g := model.ExGen{Names: fLower(i), Lits: fLits, NameExprs: true}
+		c := &model.Ex{Kind: model.XCat}
+		for j, n := 0, 2+r.Intn(3); j < n; j++ {
+			c.Kids = append(c.Kids, g.Gen(r, 1))
 		}
-		g := model.ExGen{Names: lower, Lits: fLits, NameExprs: true}
-		ex = g.Gen(r, 1+r.Intn(2))
+		ex = c.Normalize()
+	} else {
+		g := model.ExGen{Names: fLower(i), Lits: fLits, NameExprs: true}
+		ex = g.Gen(r, 1+r.Intn(f.depth))
+		if !ex.HasVar() && r.Intn(2) == 0 {
+			ex = g.Gen(r, f.depth)
+		}
 	}
 	f.nextO++
 	return &fdef{ex: ex, text: renderAlt(ex, r), origin: f.nextO}
 }
 
-func (f *forest) ownDefs(r *rand.Rand, tag string, p int) map[string]*fdef {
-	out := map[string]*fdef{}
-	for _, n := range fAllNames() {
-		if r.Intn(p) == 0 {
-			out[n] = f.newDef(r, n, tag)
+func genForest(r *rand.Rand, depth int) *forest {
+	f := &forest{depth: depth}
+	// several small source configurations: the trees copy different subsets of
+	// them, so they share definitions without holding the same set of names
+	for k, c := 0, 3+r.Intn(4); k < c; k++ {
+		label := fmt.Sprintf("src%d", k)
+		set := map[string]*fdef{}
+		for j, c := 0, 1+r.Intn(2); j < c; j++ {
+			i := fPlain + r.Intn(len(fNames)-fPlain)
+			set[fNames[i]] = f.newDef(r, i, label, false)
 		}
-	}
-	return out
-}
-
-func genForest(r *rand.Rand) *forest {
-	f := &forest{}
-	for k, c := 0, 1+r.Intn(2); k < c; k++ {
-		f.srcs = append(f.srcs, &ftree{label: fmt.Sprintf("src%d", k), set: f.ownDefs(r, fmt.Sprintf("src%d", k), 2)})
-	}
-	nenv := []int{0, 1, 1, 2}[r.Intn(4)]
-	for t := 0; t <= nenv; t++ {
-		label := "root"
-		if t > 0 {
-			label = fmt.Sprintf("env%d", t-1)
+		for i := 0; i < fPlain; i++ {
+			if r.Intn(4) == 0 {
+				set[fNames[i]] = f.newDef(r, i, label, false)
+			}
 		}
+		f.srcs = append(f.srcs, &ftree{label: label, set: set})
+	}
+	ntrees := []int{1, 2, 2, 3, 3}[r.Intn(5)]
+	for t := 0; t < ntrees; t++ {
+		label := fmt.Sprintf("t%d", t)
 		tr := &ftree{label: label, set: map[string]*fdef{}}
 		var plan []fstep
-		for j, c := 0, 1+r.Intn(3); j < c; j++ {
+		for j, c := 0, 1+r.Intn(5); j < c; j++ {
 			var st fstep
-			switch k := r.Intn(5); {
-			case k < 2:
-				st = fstep{kind: "own", own: f.ownDefs(r, label, 3)}
-			case k < 4 || t == 0:
+			switch k := r.Intn(20); {
+			case k < 3:
+				own := map[string]*fdef{}
+				for i, n := range fNames {
+					if r.Intn(4) == 0 {
+						own[n] = f.newDef(r, i, label, false)
+					}
+				}
+				st = fstep{kind: "own", own: own}
+			case k < 17 || t == 0:
 				st = fstep{kind: "src", from: r.Intn(len(f.srcs))}
 			default:
 				st = fstep{kind: "tree", from: r.Intn(t)}
 			}
 			plan = append(plan, st)
 		}
-		if t == 0 {
-			// something to read
-			has := false
-			for _, st := range plan {
-				if st.kind != "own" || len(st.own) > 0 {
-					has = true
-				}
-			}
-			if !has || r.Intn(2) == 0 {
-				own := map[string]*fdef{}
-				n := fLevels[3][r.Intn(len(fLevels[3]))]
-				own[n] = f.newDef(r, n, label)
-				plan = append(plan, fstep{kind: "own", own: own})
-			}
+		// settings of its own over all the other names, at a random position
+		// among the steps (defined before or after what they refer to)
+		own := map[string]*fdef{}
+		for j, c := 0, 1+r.Intn(2); j < c; j++ {
+			i := len(fNames) - 1 - r.Intn(4)
+			own[fNames[i]] = f.newDef(r, i, label, r.Intn(3) > 0)
 		}
+		at := r.Intn(len(plan) + 1)
+		plan = append(plan[:at], append([]fstep{{kind: "own", own: own}}, plan[at:]...)...)
 		// the model of "merge": per name, the later step wins
 		for _, st := range plan {
 			var from map[string]*fdef
@@ -183,7 +185,7 @@ func genForest(r *rand.Rand) *forest {
 	}
 	for i, c := 0, r.Intn(3); i < c; i++ {
 		res := map[string]string{}
-		for _, n := range append(append([]string{}, fLevels[0]...), fLevels[1]...) {
+		for _, n := range fNames[:4] {
 			if r.Intn(4) == 0 {
 				res[n] = tagName(fmt.Sprintf("res%d", i), n)
 			}
@@ -214,15 +216,17 @@ func (f *forest) describe() string {
 	for _, t := range f.trees {
 		fmt.Fprintf(&b, "%s built by [%s]; ", t.label, strings.Join(t.steps, ", "))
 	}
-	fmt.Fprintf(&b, "read root with Env(%d trees, in this order) resolvers=%v", len(f.trees)-1, f.ress)
+	fmt.Fprintf(&b, "resolvers=%v", f.ress)
 	return b.String()
 }
 
 // --- realisation with the library ---
 
 type fbuilt struct {
-	root *ucfg.Config
-	opts []ucfg.Option
+	trees []*ucfg.Config
+	res   []ucfg.Option
+	root  *ucfg.Config  // the tree being read
+	opts  []ucfg.Option // PathSep, VarExp, Env(other trees)..., Resolve...
 }
 
 func flatMap(m map[string]*fdef) map[string]interface{} {
@@ -261,13 +265,10 @@ func (f *forest) build() (*fbuilt, error) {
 		}
 		trees = append(trees, c)
 	}
-	b := &fbuilt{root: trees[0], opts: append([]ucfg.Option{}, base...)}
-	for _, e := range trees[1:] {
-		b.opts = append(b.opts, ucfg.Env(e))
-	}
+	b := &fbuilt{trees: trees}
 	for _, res := range f.ress {
 		res := res
-		b.opts = append(b.opts, ucfg.Resolve(func(n string) (string, parse.Config, error) {
+		b.res = append(b.res, ucfg.Resolve(func(n string) (string, parse.Config, error) {
 			if v, ok := res[n]; ok {
 				return v, parse.NoopConfig, nil
 			}
@@ -275,6 +276,21 @@ func (f *forest) build() (*fbuilt, error) {
 		}))
 	}
 	return b, nil
+}
+
+// read selects the tree to be read; all other trees are its Env
+// configurations, added in the order of their numbers.
+func (f *forest) read(b *fbuilt, t int) {
+	f.reading, f.envs = t, nil
+	b.root = b.trees[t]
+	b.opts = append([]ucfg.Option{}, vx.BaseOpts...)
+	for j := range f.trees {
+		if j != t {
+			f.envs = append(f.envs, j)
+			b.opts = append(b.opts, ucfg.Env(b.trees[j]))
+		}
+	}
+	b.opts = append(b.opts, b.res...)
 }
 
 // --- the model: the statement, for acyclic forests ---
@@ -309,9 +325,9 @@ func (f *forest) find(t int, name string) (int, *fdef) {
 	if d, ok := f.trees[t].set[name]; ok {
 		return t, d
 	}
-	for j := len(f.trees) - 1; j >= 1; j-- {
-		if d, ok := f.trees[j].set[name]; ok {
-			return j, d
+	for i := len(f.envs) - 1; i >= 0; i-- {
+		if d, ok := f.trees[f.envs[i]].set[name]; ok {
+			return f.envs[i], d
 		}
 	}
 	return -1, nil
@@ -331,7 +347,7 @@ func (f *forest) ref(t int, name string, tr *ftrace) fres {
 		if j != t {
 			tr.fromOther = true
 		}
-		if j > 0 {
+		if j != f.reading {
 			tr.fromEnv = true
 		}
 		return f.evalDef(j, d, tr)
@@ -359,7 +375,7 @@ func (f *forest) evalDef(t int, d *fdef, tr *ftrace) fres {
 		tr.where[d.origin] = map[int]bool{}
 	}
 	tr.where[d.origin][t] = true
-	if t > 0 {
+	if t != f.reading {
 		tr.envExpr = true
 	}
 	if d.ex.IsSingleRef() {
@@ -427,8 +443,12 @@ func (f *forest) eval(t int, e *model.Ex, tr *ftrace) fres {
 
 // --- run + compare ---
 
-func runForest(res *harness.R, r *rand.Rand, idx int, verbose bool) {
-	f := genForest(r)
+func runForest(res *harness.R, r *rand.Rand, tier string, idx int, verbose bool) {
+	depth := 2
+	if tier == "thorough" {
+		depth = 3
+	}
+	f := genForest(r, depth)
 	desc := "forest: " + f.describe()
 	var b *fbuilt
 	var err error
@@ -441,10 +461,18 @@ func runForest(res *harness.R, r *rand.Rand, idx int, verbose bool) {
 		res.Violate("build-error", "building the configurations failed: %v; %s", err, desc)
 		return
 	}
-	res.SetAdd("forest_shape", fmt.Sprintf("src%d-env%d-res%d", len(f.srcs), len(f.trees)-1, len(f.ress)))
+	res.SetAdd("forest_shape", fmt.Sprintf("src%d-trees%d-res%d", len(f.srcs), len(f.trees), len(f.ress)))
 	res.Ev("forest_cases", 1)
+	for t := range f.trees {
+		f.read(b, t)
+		if !readTree(res, f, b, fmt.Sprintf("%s; reading %s with Env(%v)", desc, f.trees[t].label, f.envs), verbose) {
+			return
+		}
+	}
+}
 
-	root := f.trees[0]
+func readTree(res *harness.R, f *forest, b *fbuilt, desc string, verbose bool) bool {
+	root := f.trees[f.reading]
 	keys := make([]string, 0, len(root.set))
 	for k := range root.set {
 		keys = append(keys, k)
@@ -452,17 +480,15 @@ func runForest(res *harness.R, r *rand.Rand, idx int, verbose bool) {
 	sort.Strings(keys)
 	allOK := true
 	wants := map[string]fres{}
-	anyMulti := false
+	all := &ftrace{where: map[int]map[int]bool{}} // everything evaluated when the whole tree is unpacked
 	for _, k := range keys {
 		d := root.set[k]
 		tr := &ftrace{where: map[int]map[int]bool{}}
-		want := f.evalDef(0, d, tr)
+		want := f.evalDef(f.reading, d, tr)
+		f.evalDef(f.reading, d, all)
 		wants[k] = want
 		if want.isErr {
 			allOK = false
-		}
-		if tr.multiTree() {
-			anyMulti = true
 		}
 		if !d.ex.HasVar() && !strings.Contains(d.text, "$") {
 			continue // a plain string without any escape
@@ -484,28 +510,29 @@ func runForest(res *harness.R, r *rand.Rand, idx int, verbose bool) {
 			res.Ev("settings_ending_in_an_escape_sequence", 1)
 		}
 		if !compareForest(res, f, b, k, d, want, tr, desc, verbose) {
-			return
+			return false
 		}
 	}
 	if !allOK || len(keys) == 0 {
-		return
+		return true
 	}
-	// the whole root in one Unpack: all settings are evaluated within one call
+	// the whole tree in one Unpack: all settings are evaluated within one call
 	var m map[string]interface{}
+	var err error
 	p, pv, where := harness.Safe(func() { err = b.root.Unpack(&m, b.opts...) })
 	if p {
-		res.Violate("panic", "panic %q at %s unpacking the root; %s", pv, where, desc)
-		return
+		res.Violate("panic", "panic %q at %s unpacking the whole tree; %s", pv, where, desc)
+		return false
 	}
 	res.Eval(1)
-	res.SetAdd("read_path", "forest Unpack(whole root)")
-	res.Ev("forest_whole_root_unpacked", 1)
-	if anyMulti {
-		res.Ev("forest_whole_root_unpacked_with_a_copied_expression_in_several_trees", 1)
+	res.SetAdd("read_path", "forest Unpack(whole tree)")
+	res.Ev("forest_whole_tree_unpacked", 1)
+	if all.multiTree() {
+		res.Ev("forest_whole_tree_unpacked_evaluating_one_copied_expression_in_several_trees", 1)
 	}
 	if err != nil {
-		res.Violate("resolvable-reference-fails", "Unpack of the whole root failed with %v, the model evaluates every setting; %s", err, desc)
-		return
+		res.Violate("resolvable-reference-fails", "Unpack of the whole tree failed with %v, the model evaluates every setting; %s", err, desc)
+		return false
 	}
 	for _, k := range keys {
 		var got interface{} = m
@@ -516,10 +543,11 @@ func runForest(res *harness.R, r *rand.Rand, idx int, verbose bool) {
 		want := wants[k]
 		d := root.set[k]
 		if !sameValue(got, want.s, d) {
-			res.Violate(forestSig(nil, anyMulti, fmt.Sprint(got), want.s, true), "Unpack of the whole root: %q = %#v, model %q; %s", k, got, want.s, desc)
-			return
+			res.Violate(forestSig(nil, all.multiTree(), fmt.Sprint(got), want.s, true), "Unpack of the whole tree: %q = %#v, model %q; %s", k, got, want.s, desc)
+			return false
 		}
 	}
+	return true
 }
 
 // sameValue: an Unpack into interface{} yields the text, passed through the
@@ -596,6 +624,9 @@ func compareForest(res *harness.R, f *forest, b *fbuilt, k string, d *fdef, want
 				if cls == "unresolvable" {
 					sig = "unresolvable-reference-not-an-error"
 				}
+				if tr.multiTree() {
+					sig = "expression-copied-into-several-trees-not-expanded-per-tree"
+				}
 				res.Violate(sig, "%s of %q returned %#v without error, model says %s (%s); %s", rd.how, k, rd.val, cls, want.msg, desc)
 				return false
 			}
@@ -606,7 +637,11 @@ func compareForest(res *harness.R, f *forest, b *fbuilt, k string, d *fdef, want
 			continue
 		}
 		if rd.err != nil {
-			res.Violate("resolvable-reference-fails", "%s of %q failed with %v, model says %q; %s", rd.how, k, rd.err, want.s, desc)
+			sig := "resolvable-reference-fails"
+			if tr.multiTree() {
+				sig = "expression-copied-into-several-trees-not-expanded-per-tree"
+			}
+			res.Violate(sig, "%s of %q failed with %v, model says %q; %s", rd.how, k, rd.err, want.s, desc)
 			return false
 		}
 		if !sameValue(rd.val, want.s, d) {
